@@ -24,3 +24,16 @@ Proof.
   repeat split. eexists. split; [vm_compute; reflexivity|]. cbn. discriminate.
 Qed.
 Print Assumptions C05_original_scan_empty_nodeset_refuted.
+
+(** ** Multi-node form under concurrency (ChainProofs): see Properties_C06.C06_chain_phantom_free -- when every
+    recorded (node, version) pair is still current, the scan's result is exactly the set of keys of the
+    interval that exist at that instant, along the whole leaf chain and under splits and unlinks. *)
+From Yk Require Import ChainDefs ChainProofs.
+Theorem C05_chain_unchanged_versions_exact_result : forall kss evs s,
+  kss_ok kss = true -> crun true (cinit kss) evs = Some s ->
+  sc_pc (c_scan s) = CDone ->
+  (forall id v, In (id, v) (sc_nvset (c_scan s)) ->
+     exists n, find_node id (c_nodes s) = Some n /\ cn_ver n = v) ->
+  sc_res (c_scan s) = filter (in_interval (sc_l (c_scan s)) (sc_r (c_scan s))) (all_keys (c_nodes s)).
+Proof. exact chain_scan_phantom_free. Qed.
+Print Assumptions C05_chain_unchanged_versions_exact_result.
